@@ -236,8 +236,8 @@ def introspect(force: bool = False) -> Info:
     # ---- modules and their attributes
     def _imp(name):
         mod = importlib.import_module(name)
-        info.modules[name] = sorted(n for n, o in vars(mod).items()
-                                    if (inspect.isclass(o) or inspect.isfunction(o) or inspect.isbuiltin(o)) and not n.startswith("__"))
+        # everything `getattr(module, name)` finds (classes, functions, imported names, sub-modules)
+        info.modules[name] = sorted(n for n in vars(mod) if not n.startswith("__"))
         return mod
 
     nn = _try(info, "import direct.nn", lambda: importlib.import_module("direct.nn"))
@@ -469,6 +469,8 @@ def emit(info: Info) -> tuple[str, dict]:
             if dataclasses.is_dataclass(d) and not isinstance(d, type):
                 emit_class(type(d), stack + (c,))
             ty = lean_ty(I, hint, d, f"{c.__name__}.{f.name}")
+            if isinstance(d, enum.Enum) and ty in (".str", "(.optional .str)"):
+                d = str(d)          # what OmegaConf's StringNode stores for an Enum default of a `str` field
             try:
                 dv = pool.val(d)
             except TypeError as e:
